@@ -48,6 +48,7 @@ def load_contracts(src):
         _rp.register_sum_sizes(src)
         import contracts.sequences as _sq
         _sq.register_sequences(src)
+        _sq.register_focused(src)
         import contracts.alternatives as _al
         _al.register_alternatives(src)
     import contracts.classes as cc
